@@ -41,7 +41,10 @@ fn main() {
                 format!("PANIC {}", msg.replace(['\n', '\t'], " "))
             },
         };
-        writeln!(out, "{}", s).unwrap();
+        // every protocol line starts with 0x01 so that text the library prints on stdout itself
+        // (TokenizerOpts::profile dumps a table from end()) can be told apart and dropped
+        out.flush().unwrap();
+        writeln!(out, "\u{1}{}", s).unwrap();
     }
     out.flush().unwrap();
 }
